@@ -22,7 +22,7 @@ def run(ck, prop="C01"):
     impl = vlib.build_driver("refine")
     model = vlib.ocaml_model()
     rng = random.Random(ck.seed * 9176 + 1)
-    cases = [rc.gen_history(rng, DYN) for _ in range(nh)] + [rc.gen_history(rng, DYN, big=True) for _ in range(nbig)] + [rc.huge_case(rng) for _ in range(1 if ck.tier == "quick" else 6)]
+    cases = [rc.pinched_case(rng) for _ in range(48 if ck.tier == "quick" else 600)] + [rc.gen_history(rng, DYN) for _ in range(nh)] + [rc.gen_history(rng, DYN, big=True) for _ in range(nbig)] + [rc.huge_case(rng) for _ in range(1 if ck.tier == "quick" else 6)]
     outs, crashes = vlib.run_lines_resilient([impl], [c["line"] for c in cases], timeout=1500)
     for bad, info in crashes[:2]:
         ck.report(dict(input=cases[bad]["line"], error=info), oracle="remeshing_returns_or_throws", key="refine:crash",
@@ -41,7 +41,12 @@ def run(ck, prop="C01"):
             evhist[st["name"]] = evhist.get(st["name"], 0) + 1
             if st["exc"]:
                 nexc += 1
-                break          # the operation reported failure by exception: the store is not required to be usable afterwards
+                # a pass may report failure by exception (the loop's instability report is raised after the loop, on a consistent
+                # store); an operation that throws half-way and leaves an open or doubly covered surface behind has broken it
+                f = rc.fast_valid(st)
+                if f:
+                    fails.append((ci, k, "surface_broken_by_an_operation_that_threw (%s; exception %s)" % (f, str(st["exc"])[:80])))
+                break
             f = rc.fast_valid(st)
             if f:
                 fails.append((ci, k, f)); break
@@ -52,7 +57,7 @@ def run(ck, prop="C01"):
                 vmeta.append((ci, k))
             if k > 0:
                 pre = states[k - 1]
-                if st["name"] in ("REFINE", "OP0", "OP1", "OP2") and not pre["exc"]:
+                if st["name"] in ("REFINE", "OP0", "OP1", "OP2", "OPL0", "OPL1", "OPL2") and not pre["exc"]:
                     if st["trace"]:
                         nchanged += 1
                     if len(rc.live_faces(pre)) * max(1, len(st["trace"])) <= 400000:
